@@ -338,7 +338,10 @@ class Verdict:
                 f = (replay or {}).get('fail') or {}
                 names = []
                 for c in f.get('c', []) if isinstance(f, dict) else []:
-                    names.append(c[0] if isinstance(c, list) else str(c))
+                    if isinstance(c, dict) and 'q' in c:
+                        names.append(str(c['q']).split('|')[0])
+                    else:
+                        names.append(c[0] if isinstance(c, list) else str(c))
                 if not names:
                     names = [summary.split(':')[-1].strip()[:60]]
                 for n in set(names):
